@@ -648,6 +648,47 @@ var coder{{.Name}}SliceValue = valueCoderFuncs{
 {{- end}}
 }
 
+{{if (eq .Name "String")}}
+// append{{.Name}}SliceValueValidateUTF8 encodes a []{{.GoType}} value as a repeated {{.Name}}.
+func append{{.Name}}SliceValueValidateUTF8(b []byte, listv protoreflect.Value, wiretag uint64, opts marshalOptions) ([]byte, error) {
+	list := listv.List()
+	for i, llen := 0, list.Len(); i < llen; i++ {
+		v := list.Get(i)
+		b = protowire.AppendVarint(b, wiretag)
+		{{template "AppendValue" .}}
+		if !utf8.ValidString({{.FromValue}}) {
+			return b, errInvalidUTF8{}
+		}
+	}
+	return b, nil
+}
+
+// consume{{.Name}}SliceValueValidateUTF8 wire decodes a []{{.GoType}} value as a repeated {{.Name}}.
+func consume{{.Name}}SliceValueValidateUTF8(b []byte, listv protoreflect.Value, _ protowire.Number, wtyp protowire.Type, opts unmarshalOptions) (_ protoreflect.Value, out unmarshalOutput, err error) {
+	list := listv.List()
+	if wtyp != {{.WireType.Expr}} {
+		return protoreflect.Value{}, out, errUnknown
+	}
+	{{template "Consume" .}}
+	if n < 0 {
+		return protoreflect.Value{}, out, errDecode
+	}
+	if !utf8.Valid(v) {
+		return protoreflect.Value{}, out, errInvalidUTF8{}
+	}
+	list.Append({{.ToValue}})
+	out.n = n
+	return listv, out, nil
+}
+
+var coder{{.Name}}SliceValueValidateUTF8 = valueCoderFuncs{
+	size:      size{{.Name}}SliceValue,
+	marshal:   append{{.Name}}SliceValueValidateUTF8,
+	unmarshal: consume{{.Name}}SliceValueValidateUTF8,
+	merge:     mergeListValue,
+}
+{{end}}
+
 {{if or (eq .WireType "Varint") (eq .WireType "Fixed32") (eq .WireType "Fixed64")}}
 // size{{.Name}}PackedSliceValue returns the size of wire encoding a []{{.GoType}} value as a packed repeated {{.Name}}.
 func size{{.Name}}PackedSliceValue(listv protoreflect.Value, tagsize int, opts marshalOptions) (size int) {
